@@ -10,9 +10,10 @@
     `pvdriver` the model on the same generated class texts (every escape form, ranges and dashes in every position, `\p`
     classes, `^`, `i`, stray bytes, truncations) and the descriptors are compared field by field on every run.
   * `C03_class_parse_roundtrip` (proof in `Proofs/ClassRoundTrip.lean`): PRINTING A CLASS BACK TO TEXT AND RE-PARSING YIELDS
-    THE SAME CLASS, for every descriptor - any number of characters, ranges and class names, both flags - under the
-    hypothesis the code forces (no single `-`, no range starting with `-`: finding D3, `C03_D3_escaped_dash_is_an_operator`).
-  * `C03_class_roundtrip_partial` (C03Base.lean): the same for the extraction phase alone, on decoded runes.
+    THE SAME CLASS, for every descriptor - any number of characters, ranges and class names, both flags, `-` anywhere.
+    (Finding D3 - an escaped `-` read as the range operator - made this false; it was repaired with a `fix:` commit, after
+    which the hypothesis "no single `-`" disappeared from the theorem: `C03_D3_escaped_dash_is_a_character`.)
+  * `C03_class_extraction_roundtrip` (C03Base.lean): the same for the extraction phase alone, on decoded runes.
 
   The universal round trip over all ASTs and layouts is decided by execution (`harness/cmd/pvfront`: generated ASTs printed
   in random spellings, parsed by the real front-end through the verif hook, compared node by node incl. positions), and the
@@ -25,22 +26,28 @@ namespace PV
 namespace ClassParse
 
 /-- **C03 — class round trip, whole function.** For every class descriptor - ignore-case flag, inverted flag, any list of
-    Unicode class names, of single characters and of ranges - whose characters and range bounds are valid code points,
-    whose single characters are not `-`, whose ranges do not start with `-`, and whose class names are ASCII without `}`:
-    the model of `(*ast.CharClassMatcher).parse` reads the canonical spelling `spell` (every code point as `\UXXXXXXXX`)
-    back as exactly that descriptor. -/
+    Unicode class names, of single characters and of ranges - whose characters and range bounds are valid code points and
+    whose class names are ASCII without `}`: the model of `(*ast.CharClassMatcher).parse` reads the canonical spelling
+    `spell` (every code point as `\UXXXXXXXX`, the range operator plain) back as exactly that descriptor. No hypothesis
+    about `-`: a `-` among the characters or as a range bound is read back as what it was (repair of finding D3). -/
 theorem C03_class_parse_roundtrip (ic inv : Bool) (ns : List (List Rune)) (cs : List Rune) (rs : List (Rune × Rune))
-    (hn : ∀ n ∈ ns, NameOK n) (hc : ∀ c ∈ cs, validRune c = true ∧ c ≠ dash)
-    (hr : ∀ p ∈ rs, validRune p.1 = true ∧ validRune p.2 = true ∧ p.1 ≠ dash) :
+    (hn : ∀ n ∈ ns, NameOK n) (hc : ∀ c ∈ cs, validRune c = true)
+    (hr : ∀ p ∈ rs, validRune p.1 = true ∧ validRune p.2 = true) :
     parse (spell ic inv ns cs rs) =
       some { ignoreCase := ic, inverted := inv, chars := cs, ranges := flat rs, classes := ns } :=
   parse_spell ic inv ns cs rs hn hc hr
 
-/-- the hypothesis on `-` cannot be dropped (finding D3): the class `a`, `-`, `c` - three single characters - spelled with
-    every character escaped is read back as the RANGE a-c; the escaping is lost before the range operator is looked for -/
-theorem C03_D3_escaped_dash_is_an_operator :
+/-- finding D3, repaired (`fix:` commit in /repo): the class `a`, `-`, `c` - three single characters - spelled with every
+    character escaped is read back as three characters. Before the repair it was read as the RANGE a-c: the decoded `-` was
+    taken for the range operator whether or not it had been written as an escape (`[a\x2dc]`). -/
+theorem C03_D3_escaped_dash_is_a_character :
     parse (spell false false [] [97, 45, 99] []) =
-      some { ignoreCase := false, inverted := false, chars := [], ranges := [97, 99], classes := [] } := by
+      some { ignoreCase := false, inverted := false, chars := [97, 45, 99], ranges := [], classes := [] } := by
+  decide
+
+/-- ... while a plain `-` between two characters is the range operator, as documented: the text `[a-c]` -/
+theorem C03_plain_dash_is_the_range_operator :
+    parse [91, 97, 45, 99, 93] = some { ignoreCase := false, inverted := false, chars := [], ranges := [97, 99], classes := [] } := by
   decide
 
 /-- a bracketed text is never rejected by `parse` (the slicing cannot go out of bounds on what the grammar hands over) -/
